@@ -206,6 +206,9 @@ def run_clean(ctx, rng, base, spec, cases, forced=None):
         if forced.get("size") is not None:
             args.append(f"--size={forced['size']}")
             o["size"] = int(forced["size"] * 2 ** 30)
+        for t in forced.get("targets", []):
+            args.append(f"--target={t}")
+            o["targets"].append(ix.group_id[t])
     else:
         args, o = clean_options(rng, base, spec, ix)
     before = ix.copies()
@@ -464,6 +467,17 @@ def explore(ctx, n=None):
               "files": [{"acq": "acq1", "name": f"f{i}", "size": fsz, "reg_days_ago": 1} for i in range(nfiles)],
               "copies": [{"file": i, "node": "N1", "has": "Y", "wants": wants0[i]} for i in range(nfiles)], "reqs": [], "rules": [], "ireqs": []}
         run_clean(ctx, rng, base, sp, cases, forced={"node": "N1", "mode": mode, "size": size})
+    # --target: a file must be in *all* the named groups; a group holding none of the files empties the selection for good
+    for layout, targets in (({"G2": [], "G3": [0]}, ["G2", "G3"]), ({"G2": [0, 1], "G3": [], "G4": [0]}, ["G2", "G3", "G4"]), ({"G2": [0, 1], "G3": [1], "G4": [0, 1]}, ["G2", "G3", "G4"]),
+                            ({"G2": [0], "G3": [1], "G4": [0, 1]}, ["G4", "G2", "G3"])):
+        groups = ["G1"] + sorted(layout)
+        sp = {"groups": groups, "nodes": [{"name": f"N{i + 1}", "group": g, "stype": "A", "host": "h1", "active": True} for i, g in enumerate(groups)], "acqs": ["acq1"],
+              "files": [{"acq": "acq1", "name": f"f{i}", "size": 100, "reg_days_ago": 1} for i in range(2)],
+              "copies": [{"file": i, "node": "N1", "has": "Y", "wants": "Y"} for i in range(2)]
+                        + [{"file": f, "node": f"N{groups.index(g) + 1}", "has": "Y", "wants": "Y"} for g, fs in sorted(layout.items()) for f in fs],
+              "reqs": [], "rules": [], "ireqs": []}
+        for mode in ("mark", "now"):
+            run_clean(ctx, rng, base, sp, cases, forced={"node": "N1", "mode": mode, "targets": targets})
     for k in range(n):
         spec = cw.gen_spec(rng)
         runners[k % len(runners)](ctx, rng, base, spec, cases)
